@@ -1,6 +1,7 @@
 """vlib.py — shared machinery: builds (Coq proofs, extracted OCaml model, C++ harness
 over /repo's current working tree), running the correspondence, evidence, replays."""
 import os, sys, subprocess, hashlib, json, time, shutil, re
+sys.set_int_max_str_digits(0)
 from concurrent.futures import ThreadPoolExecutor
 
 VERIF = os.path.dirname(os.path.dirname(os.path.abspath(__file__)))
